@@ -493,7 +493,7 @@ func (w *World) checkNodeTypeTests(P string, f *Facts, r *Roles) {
 			}
 			for _, in := range b.Instrs {
 				if ta, ok := in.(*ssa.TypeAssert); ok {
-					if n, ok := ta.AssertedType.(*types.Named); ok {
+					if n, ok := types.Unalias(ta.AssertedType).(*types.Named); ok {
 						asserted[n.Obj().Name()] = true
 					}
 				}
@@ -544,7 +544,7 @@ func (w *World) checkNodeTypeTests(P string, f *Facts, r *Roles) {
 	asserted := false
 	allInstrs(hp.Fn, func(in ssa.Instruction) {
 		if ta, ok := in.(*ssa.TypeAssert); ok {
-			if n, ok := ta.AssertedType.(*types.Named); ok && n.Obj().Name() == "ProcInst" {
+			if n, ok := types.Unalias(ta.AssertedType).(*types.Named); ok && n.Obj().Name() == "ProcInst" {
 				asserted = true
 			}
 		}
